@@ -268,7 +268,7 @@ class _Wait:
         return True
 
 
-@harness('T1', targets='kopf._cogs.aiokits.aiotime.sleep', props=['C07', 'C10', 'C11', 'C12', 'C03'],
+@harness('T1', targets='kopf._cogs.aiokits.aiotime.sleep', props=['C07', 'C10', 'C11', 'C12', 'C03', 'C13'],
          clauses=['no_delay_returns_at_once', 'already_set_returns_m_at_once', 'timeout_returns_none_after_m',
                   'woken_returns_remaining', 'suspends_at_most_once', 'frame', 'cancellation_propagates'],
          canaries=['canary.never_sleeps', 'canary.always_none'],
